@@ -284,6 +284,10 @@ class Program:
         cands = self.by_simple.get(simple, [])
         if len(cands) == 1:
             return cands[0]
+        # package re-export not loaded: prefer the unique candidate defined below the imported package
+        sub = [c for c in cands if c.qual.startswith(modname + '.')]
+        if len(sub) == 1:
+            return sub[0]
         return None
 
     def mro(self, ci):
